@@ -264,6 +264,65 @@ def family_create_unreachable():
     return out
 
 
+def family_error_codes(idem):
+    """every broker error code in place of success for one partition of a two-partition request (inputs quantifier):
+    each message must still get exactly one outcome and Close must return"""
+    out = []
+    for code in list(range(-1, 60)) + [72, 74, 87]:
+        if code in (0, 46):
+            continue   # 46 = DUPLICATE_SEQUENCE_NUMBER: a faithful broker only sends it for a batch that IS in the log
+        cfg = dict(idem=idem, retryMax=2, leaders=[1, 1], nbrokers=1, flushMsgs=3, flushFreqMs=20)
+        pl = {"1": {"part": {"0": "code:%d" % code}}}
+        steps = submits([(1, 0), (2, 1), (3, 0)]) + [{"op": "wait_outcomes", "n": 3, "ms": 2500}] + submits([(4, 0)])
+        steps += [{"op": "wait_outcomes", "n": 4, "ms": 2500}, {"op": "close"}]
+        out.append(sc("code%d-%s" % (code, "idem" if idem else "plain"), "errorcodes", cfg, steps, pl))
+    return out
+
+
+def family_gates_metafail(idem):
+    """P4b: fresh input parked during a retry, the leader lookup FAILS when the parked level is flushed (the parked
+    messages are failed), then a second retriable bounce on the same partition"""
+    out = []
+    for rmax in (2, 3):
+        cfg = dict(idem=idem, retryMax=rmax, leaders=[1], nbrokers=1)
+        gates = [{"name": "fin_at_bp", "point": "bp.recv", "flags": "fin", "retries": -1, "part": -1, "hwm": -1},
+                 {"name": "parked", "point": "pp.recv", "flags": "none", "retries": 0, "part": -1, "hwm": 1}]
+        pl = {"1": {"part": {"0": "retry"}}, "3": {"part": {"0": "retry"}}}
+        steps = submits([(1, 0)]) + [{"op": "wait_gate", "name": "fin_at_bp"}] + submits([(2, 0), (3, 0)])
+        steps += [{"op": "wait_gate", "name": "parked"}, {"op": "release_gate", "name": "parked"}, {"op": "sleep", "ms": 10},
+                  {"op": "meta_fail", "n": 3}, {"op": "release_gate", "name": "fin_at_bp"}, {"op": "wait_outcomes", "n": 3, "ms": 3000}]
+        steps += submits([(4, 0), (5, 0)]) + [{"op": "wait_outcomes", "n": 5, "ms": 3000}] + submits([(6, 0)])
+        steps += [{"op": "wait_outcomes", "n": 6, "ms": 3000}, {"op": "close"}]
+        out.append(sc("gate-metafail-r%d" % rmax, "gates", cfg, steps, pl, gates))
+    return out
+
+
+def family_idem_clean():
+    """idempotent scenarios with a connection-level fault or an epoch bump in which the pinned tree behaves
+    correctly (one batch in flight, nothing else sequenced): violations here are NOT covered by the
+    idempotent known findings (their signatures exclude this family)"""
+    out = []
+    for fault in ("drop_after", "silence_after", "drop_before"):
+        # ack of the only in-flight batch lost; a message is rejected locally (too large, never sequenced) meanwhile
+        cfg = dict(idem=True, retryMax=3, leaders=[1], nbrokers=1, maxMsgBytes=400, backoffMs=40, readTimeoutMs=120)
+        pl = {"1": {"hold": True, "conn": fault}}
+        steps = submits([(1, 0)]) + [{"op": "wait_req", "n": 1, "ms": 1500}, {"op": "release", "n": 1}, {"op": "sleep", "ms": 15},
+                                     {"op": "submit", "id": 2, "part": 0, "size": 2000}, {"op": "wait_outcomes", "n": 2, "ms": 3000}]
+        steps += submits([(3, 0)]) + [{"op": "wait_outcomes", "n": 3, "ms": 3000}, {"op": "close"}]
+        out.append(sc("idemclean-%s-oversize" % fault, "idem_clean", cfg, steps, pl))
+    # epoch bump (encode failure of a sequenced message) while another partition's message is parked in the buffer and a
+    # request is in flight; the next message of the bumped partition arrives before the in-flight response
+    cfg = dict(idem=True, retryMax=2, leaders=[1, 1], nbrokers=1)
+    pl = {"1": {"hold": True}}
+    steps = submits([(1, 0)]) + [{"op": "wait_req", "n": 1, "ms": 1500}, {"op": "submit", "id": 2, "part": 1},
+                                 {"op": "submit", "id": 3, "part": 0, "badenc": True}, {"op": "wait_outcomes", "n": 1, "ms": 1500},
+                                 {"op": "submit", "id": 4, "part": 0}, {"op": "sleep", "ms": 20}, {"op": "release", "n": 1},
+                                 {"op": "wait_outcomes", "n": 4, "ms": 3000}]
+    steps += submits([(5, 0), (6, 1)]) + [{"op": "wait_outcomes", "n": 6, "ms": 3000}, {"op": "close"}]
+    out.append(sc("idemclean-bump-parked", "idem_clean", cfg, steps, pl))
+    return out
+
+
 def family_overflow(idem):
     """a message waits for space (Flush.MaxMessages / request size reached while a request is in flight)
     and the in-flight request then fails: the waiting message must not overtake the bounced ones"""
